@@ -77,6 +77,10 @@ func (f *WithZipReader) Call(s *slip.Scope, args slip.List, depth int) (result s
 	s2.Let(sym, slip.NewInputStream(z))
 	for i := range forms {
 		result = slip.EvalArg(s2, forms, i, d2)
+		if _, exit := result.(slip.NonLocalExit); exit {
+			// return-from, return or go: control is leaving the body.
+			break
+		}
 	}
 	_ = z.Close()
 
